@@ -25,13 +25,16 @@ CHECKS.update({
             "Complete product sizes (0, 1, around every multiple of both read-buffer sizes, multi-buffer) x 12 kinds of data "
             "argument (str, Path, file stream at 4 offsets, fd-backed stream, BytesIO / BufferedReader(BytesIO) at several "
             "offsets) x store algorithms, plus explicit-state BFS to closure in which witness pids must keep retrieving "
-            "their exact bytes after every history of calls on other pids.",
+            "their exact bytes after every history of calls on other pids (the other pids include suffix / prefix relatives "
+            "of the witnesses). Environment answers: every raw write(2) of a store, in turn, is a SHORT write - a store "
+            "that reports success must still retrieve the exact bytes, size and digests.",
             S_NOTE + " Byte values follow a position-dependent pattern; digest correctness for arbitrary bytes is hashlib's.",
             "bounded-exhaustive input enumeration + explicit-state model checking of the implementation", "4/C01"),
     "C02": ("E+S", "model_checking",
             "All 13x13 (additional, checksum) algorithm combinations x spellings x contents, every spelling for "
             "get_hex_digest, and BFS over histories of store_object calls with differing algorithm arguments on ONE "
-            "instance (instance attributes carried along), checking the key set and every digest of every call.",
+            "instance (instance attributes carried along; get_hex_digest and rejected re-stores in the alphabet), checking "
+            "the key set and every digest of every call; digests after short writes and for an object altered on disk.",
             S_NOTE, "bounded-exhaustive input enumeration + explicit-state model checking (one-instance histories)", "4/C02"),
     "C03": ("S", "model_checking",
             "BFS to closure over store/tag/delete/delete_if_invalid on pids p/q, contents A/B, cids cA/cB/never-stored; "
@@ -42,7 +45,9 @@ CHECKS.update({
             "BFS to closure over an alphabet in which three pids share one content: tagging, deleting, "
             "delete_if_invalid_object with wrong size / checksum / both, rejected stores, metadata calls; after every "
             "transition every bound pid is retrieved and compared byte for byte and the object file must be present "
-            "exactly while referenced.", S_NOTE,
+            "exactly while referenced. Engine T part: a step observer ('no step removes an object file while some pid is "
+            "completely bound to it') on every step of every interleaving of a remover with a tagger / storer, explored "
+            "without partial-order reduction.", S_NOTE,
             "explicit-state model checking of the implementation (BFS to fixpoint, reference-model oracle)", "4/C04"),
     "C06": ("E", "exploration",
             "Complete product contents x 12 algorithms x spellings x checksum kinds x size kinds x prior state of the "
@@ -88,7 +93,7 @@ CHECKS.update({
             "The observer invariant I9 (object file hashes to its name, metadata document is a complete supplied version, "
             "pid reference is one complete cid) is evaluated on the kernel-visible tree after EVERY scheduling step of every "
             "interleaving of a writer with a concurrent reader (contents of 0, 1, one buffer, three buffers + 7 bytes) and "
-            "on the crash image before every file-system operation of 13 calls.",
+            "on the crash image before every file-system operation of 13 calls, and after every possible short write(2).",
             T_NOTE + " Process death = completed system calls are durable, user-space buffers are not.",
             "stateless model checking with a per-step observer + exhaustive crash-point enumeration", "4/C09"),
     "C10": ("F", "model_checking",
@@ -114,7 +119,9 @@ CHECKS.update({
     "C16": ("S+T", "model_checking",
             "Engine S: every transition of the C05 and C11 closures is executed in both synchronisation modes and must give "
             "the same outcome and the same tree (and satisfy the model). Engine T: C07 / C12 / C08 scenarios through the "
-            "_mp code paths with one instance copy per 'process' and shared _mp primitives, same oracles.",
+            "_mp code paths with one instance copy per 'process' and shared _mp primitives (unsynchronised accesses to the "
+            "shared lists are scheduling points), same oracles. Single I/O faults are injected in both modes and must give "
+            "the same outcome and state. A sampled conformance run with REAL forked processes must terminate with nothing locked.",
             T_NOTE + " Real forked processes and the real multiprocessing primitives are exercised only by the sampled "
             "conformance self-test. Known findings C16-R1 / C16-R3 mirror C07's.",
             "explicit-state differential model checking + stateless model checking of the multiprocessing code paths on "
